@@ -153,6 +153,71 @@ def confirm(args):
     return 1
 
 
+def rebase(args):
+    """Re-bases kept seeded changes whose patch no longer applies to /repo HEAD (after a new fix: commit) with a
+    three-way merge in a scratch worktree, re-runs build, suite and demonstration, and rewrites patch.diff."""
+    rcs = 0
+    for sid in args.ids:
+        d = os.path.join(VERIF, "seeded", sid)
+        meta = json.load(open(os.path.join(d, "meta.json")))
+        patch = os.path.join(d, "patch.diff")
+        if sh(["git", "-C", REPO, "apply", "--check", patch])[0] == 0 and not args.force:
+            print(f"{sid}: applies as it is")
+            continue
+        wt = tempfile.mkdtemp(prefix="seedrebase-", dir="/tmp")
+        os.rmdir(wt)
+        try:
+            sh(["git", "-C", REPO, "worktree", "add", "-q", "--detach", wt, "HEAD"])
+            rc, out = sh(["git", "-C", wt, "apply", "--3way", "--whitespace=nowarn", patch])
+            conflicted = sh(["git", "-C", wt, "diff", "--name-only", "--diff-filter=U"])[1].split()
+            if rc != 0 or conflicted:
+                print(f"{sid}: CONFLICT ({out.strip()[-300:]}) - needs a manual re-base")
+                rcs = 1
+                continue
+            sh(["git", "-C", wt, "reset", "-q"])
+            newdiff = sh(["git", "-C", wt, "diff"])[1]
+            rc, out = sh(["go", "build", "./..."], cwd=wt, timeout=600)
+            if rc != 0:
+                print(f"{sid}: re-based patch does not build: {out[-500:]}")
+                rcs = 1
+                continue
+            passes = 0
+            for i in range(3):
+                rc, out = sh(["go", "test", "-vet=off", "-count=1", "./..."], cwd=wt, env={"GOFLAGS": ""}, timeout=1200)
+                passes += rc == 0
+                if passes >= 2:
+                    break
+            if passes < 2:
+                print(f"{sid}: suite fails with the re-based patch: {out[-600:]}")
+                rcs = 1
+                continue
+            demos = demo_files(d)
+            placed = []
+            for dm in demos:
+                dst = os.path.join(wt, demo_pkg_dir(os.path.join(d, dm)), "zz_seed_" + dm if dm.endswith("_test.go") else dm)
+                shutil.copyfile(os.path.join(d, dm), dst)
+                placed.append(dst)
+            cmd = meta["confirmed"]["demo_cmd"].split(" ")
+            rc_with, out_with = sh(cmd, cwd=wt, timeout=1500)
+            open(os.path.join(wt, ".rebased.diff"), "w").write(newdiff)
+            sh(["git", "-C", wt, "apply", "-R", "--whitespace=nowarn", os.path.join(wt, ".rebased.diff")])
+            rc_without, out_without = sh(cmd, cwd=wt, timeout=1500)
+            if rc_with == 0 or rc_without != 0:
+                print(f"{sid}: after the re-base the demonstration gives with={rc_with} without={rc_without}: {out_with[-400:]} // {out_without[-400:]}")
+                rcs = 1
+                continue
+            open(patch, "w").write(newdiff)
+            meta["rebased"] = {"onto": sh(["git", "-C", REPO, "rev-parse", "--short", "HEAD"])[1].strip(), "how": "git apply --3way in a scratch worktree; build, repository suite (2 of 3) and demonstration (fails with, passes without) re-run",
+                               "at": time.strftime("%Y-%m-%dT%H:%M:%SZ", time.gmtime())}
+            json.dump(meta, open(os.path.join(d, "meta.json"), "w"), indent=1)
+            print(f"{sid}: REBASED")
+        finally:
+            sh(["git", "-C", REPO, "worktree", "remove", "--force", wt])
+            shutil.rmtree(wt, ignore_errors=True)
+            sh(["git", "-C", REPO, "worktree", "prune"])
+    return rcs
+
+
 def run(args):
     ids = args.ids or sorted(os.listdir(os.path.join(VERIF, "seeded")))
     rc, out = sh(["git", "-C", REPO, "status", "--porcelain"])
@@ -211,8 +276,11 @@ def main():
     r.add_argument("--seed", type=int, default=1)
     r.add_argument("--check-dir", default="", help="run the ./check of another checkout of /verif (e.g. an older commit) and record under --label")
     r.add_argument("--label", default="")
+    b = sub.add_parser("rebase")
+    b.add_argument("ids", nargs="+")
+    b.add_argument("--force", action="store_true")
     args = ap.parse_args()
-    return confirm(args) if args.cmd == "confirm" else run(args)
+    return {"confirm": confirm, "run": run, "rebase": rebase}[args.cmd](args)
 
 
 if __name__ == "__main__":
